@@ -33,6 +33,9 @@ type spec struct {
 	Make  func() (subject, error)
 	// Complexity > 0: the TraceQL complexity estimate is forced to this value (several portions)
 	Complexity int64
+	// Dry: the statements do not depend on earlier answers and nothing but the database evaluates them (no in-process
+	// stages): they are recorded, not executed, and executed on the store only where two of them differ
+	Dry bool
 }
 
 func (s *spec) id() string { return s.Lang + "/" + s.Entry + "/" + s.Query }
@@ -58,10 +61,18 @@ func collect(x *X, a *arm) {
 
 // ---- LogQL chain ----
 
-func (p *logPlan) process(x *X, w window, k int, probe bool) *arm { return x.processLog(p, w, k, probe) }
+func (p *logPlan) process(x *X, w window, k int, probe bool) *arm {
+	return x.processLog(p, w, k, probe)
+}
 
 func logSpec(q string) *spec {
-	return &spec{Lang: "logql", Entry: "chain", Query: q, Make: func() (subject, error) {
+	dry := false
+	if script, err := logql_parser.Parse(q); err == nil {
+		if bp, err := logql_transpiler_v2.GetBreakpoint(script); err == nil {
+			dry = bp == logql_transpiler_v2.BreakpointNo || clickhouse_planner.AnalyzeMetrics15sShortcut(script)
+		}
+	}
+	return &spec{Lang: "logql", Entry: "chain", Query: q, Dry: dry, Make: func() (subject, error) {
 		p, err := planLog(q)
 		if err != nil {
 			return nil, err
@@ -233,7 +244,7 @@ func traceSpec(q string, limit int64, complexity int64) *spec {
 	if limit == 0 {
 		entry += "_nolimit"
 	}
-	return &spec{Lang: "traceql", Entry: entry, Query: q, Complexity: complexity, Make: func() (subject, error) {
+	return &spec{Lang: "traceql", Entry: entry, Query: q, Complexity: complexity, Dry: complexity == 0, Make: func() (subject, error) {
 		script, err := traceql_parser.Parse(q)
 		if err != nil {
 			return nil, err
@@ -293,7 +304,7 @@ func (p *tagsPlan) process(x *X, w window, k int, probe bool) *arm {
 }
 
 func tagsSpec(q string) *spec {
-	return &spec{Lang: "traceql", Entry: "tags_v2", Query: q, Make: func() (subject, error) {
+	return &spec{Lang: "traceql", Entry: "tags_v2", Query: q, Dry: true, Make: func() (subject, error) {
 		script, err := traceql_parser.Parse(q)
 		if err != nil {
 			return nil, err
@@ -307,7 +318,7 @@ func tagsSpec(q string) *spec {
 }
 
 func valuesSpec(q, key string) *spec {
-	return &spec{Lang: "traceql", Entry: "values_v2:" + key, Query: q, Make: func() (subject, error) {
+	return &spec{Lang: "traceql", Entry: "values_v2:" + key, Query: q, Dry: true, Make: func() (subject, error) {
 		script, err := traceql_parser.Parse(q)
 		if err != nil {
 			return nil, err
